@@ -92,6 +92,12 @@ func (g *Gateway) subscriptionHandler(w http.ResponseWriter, r *http.Request) {
 		defer func() {
 			recover()
 		}()
+		// close all running handlers, even if client is already gone
+		defer subDict.CleanAll()
+
+		// close conn
+		defer conn.Close()
+
 		// gracefully close connection
 		body := ws.NewCloseFrameBody(ws.StatusNormalClosure, "")
 		frame := ws.NewCloseFrame(body)
@@ -101,12 +107,6 @@ func (g *Gateway) subscriptionHandler(w http.ResponseWriter, r *http.Request) {
 		if _, err := conn.Write(body); err != nil {
 			return
 		}
-
-		// close conn
-		conn.Close()
-
-		// close all running handlers
-		subDict.CleanAll()
 	}()
 
 	for {
